@@ -19,11 +19,12 @@ import (
 )
 
 type scriptReader struct {
-	data   []byte
-	chunks []int
-	i, off int
-	onRead func(n int)
-	pend   int
+	data        []byte
+	chunks      []int
+	i, off      int
+	onRead      func(n int)
+	pend        int
+	eofTogether bool // the last bytes and io.EOF come in ONE Read call (n > 0, io.EOF), as the io.Reader contract allows
 }
 
 func (r *scriptReader) Read(p []byte) (int, error) {
@@ -45,6 +46,9 @@ func (r *scriptReader) Read(p []byte) (int, error) {
 	copy(p, r.data[r.off:r.off+n])
 	r.off += n
 	r.pend = n
+	if r.eofTogether && r.off >= len(r.data) {
+		return n, io.EOF
+	}
 	return n, nil
 }
 
@@ -136,7 +140,7 @@ func TestStreamGen(t *testing.T) {
 			}
 		}
 		frames := []map[string]any{}
-		sr := &scriptReader{data: data, chunks: chunks}
+		sr := &scriptReader{data: data, chunks: chunks, eofTogether: tr%5 == 3}
 		if tr%6 == 4 {
 			sr.chunks = chunks // consumed once, then the large tail
 		}
